@@ -1,5 +1,6 @@
 import PqlModel.Props.C11
 import PqlModel.Props.C11b
+import PqlModel.Props.C11Compile
 #print axioms Pql.C11.C11_children_complete
 #print axioms Pql.C11.C11_render_props_complete
 #print axioms Pql.C11.C11_nil_guarded
@@ -20,3 +21,8 @@ import PqlModel.Props.C11b
 #print axioms Pql.C11.C11_parsed_expr_complete
 #print axioms Pql.C11.C11_parsed_complete
 #print axioms Pql.C11.C11_parsed_walk
+#print axioms Pql.Glue.C11_allNodes_idents
+#print axioms Pql.Glue.C11_hasJoinTerms_via_walk
+#print axioms Pql.Glue.C11_walk_ident_events
+#print axioms Pql.Glue.C11_parsed_join_conditions
+#print axioms Pql.Glue.C11_call_func_not_visited
